@@ -1,4 +1,110 @@
-/- Line protocol of C15: placeholder until the model of this property is built. -/
+import BertE.Model.Reset
+import BertE.Gen.Reset
+import BertE.Drv.C01
+/-
+Line protocol of C15. The harness exports the REAL repository at the moment of the command:
+  <graph>  = commits in topological order, `,`-separated, each `<parents joined by .|->/<robot 0|1>`
+  <refs>   = `,`-separated `<ref code>=<commit>` (codes as in Drv/C01: D:<dest> W:<dest>:<src> Q:<dest> QW:<pr>:<dest>:<src> O:<name>)
+  <dests>  = `,`-separated destination codes in cascade order
+  <prs>    = `,`-separated `<id>:<open 0|1>:<ref code of the source branch>` or `-`
+`C15 reset <force 0|1> <featureNoMerges 0|1|g> <wNoMerges 0|1|g> <pr id> <src> <dst> <useQueue 0|1> <dests> <refs> <graph> <prs>`
+   -> `<outcome>|<refs after>|<declined ids>|<per integration branch: dest~lossy~feature0~wcommits (oldest first)~feature at the end>;...`
+      (`g` = the switch as generated from the source, Gen/Reset.lean)
+`C15 eval <pr id> <src> <dst> <useQueue 0|1> <skipQueue 0|1> <dests> <refs> <graph> <stage e|i|f> <orc bits|->`
+   -> the observation of Drv/C01 after the evaluation of the pull request on that state
+-/
 namespace BertE.Drv.C15
-def handle (_args : List String) : String := "bad-op"
+open BertE.Git BertE.Flow BertE.Reset BertE.Drv.C01
+
+def genFlags : Flags := ⟨BertE.Gen.Reset.featureNoMerges, BertE.Gen.Reset.wNoMerges⟩
+
+def parseFlag (s : String) (gen : Bool) : Bool :=
+  if s == "g" then gen else s == "1"
+
+def parseCommit (s : String) : Option CInfo :=
+  match s.splitOn "/" with
+  | [ps, r] => do
+    let l ← parseNats ps "."
+    pure ⟨l, r == "1"⟩
+  | _ => none
+
+def parseGraph (s : String) : Option CGraph :=
+  if s == "-" || s == "" then some ⟨[]⟩ else
+  ((s.splitOn ",").mapM parseCommit).map CGraph.mk
+
+def parseRef (s : String) : Option Ref :=
+  match s.splitOn ":" with
+  | ["D", d] => (parseDest d).map Ref.dest
+  | "W" :: d :: rest => (parseDest d).map (fun d => Ref.w d (":".intercalate rest))
+  | ["Q", d] => (parseDest d).map Ref.q
+  | "QW" :: p :: d :: rest => do
+    let i ← p.toNat?; let d ← parseDest d
+    pure (Ref.qw i d (":".intercalate rest))
+  | "O" :: rest => some (Ref.other (":".intercalate rest))
+  | _ => none
+
+def parseRefs (s : String) : Option RefMap :=
+  if s == "-" || s == "" then some [] else
+  (s.splitOn ",").mapM (fun kv =>
+    match kv.splitOn "=" with
+    | [k, v] => do let r ← parseRef k; let c ← v.toNat?; pure (r, c)
+    | _ => none)
+
+def parsePrs (s : String) : Option (List HostPr) :=
+  if s == "-" || s == "" then some [] else
+  (s.splitOn ",").mapM (fun e =>
+    match e.splitOn ":" with
+    | i :: o :: rest => do
+      let id ← i.toNat?; let r ← parseRef (":".intercalate rest)
+      pure ⟨id, r, o == "1"⟩
+    | _ => none)
+
+def mkSys (cg : CGraph) (refs : RefMap) (dests : List Dest) (useQueue skipQueue : Bool) : Sys :=
+  { g := cg.toGraph, remote := refs,
+    devs := dests.filterMap (fun d => match d with | .dev M m => some (M, m) | _ => none),
+    stabs := dests.filterMap (fun d => match d with | .stab M m u => some (M, m, u) | _ => none),
+    queue := [], useQueue := useQueue, skipQueue := skipQueue }
+
+def showNats (l : List Nat) : String := ".".intercalate (l.map toString)
+
+def showRefs (m : RefMap) : String :=
+  let refs := (m.map (fun rc => (showRef rc.1, rc.2))).foldl (fun acc x => insertSorted x acc) []
+  ",".intercalate (refs.map (fun x => s!"{x.1}={x.2}"))
+
+def branchDetail (s : Sys) (cg : CGraph) (fl : Flags) (pr : PrInfo) (d : Dest) : String :=
+  match s.remote.get (.other pr.src), s.remote.get (.dest d), s.remote.get (.w d pr.src) with
+  | some st, some dt, some wt =>
+    let r := branchWalk cg fl st dt wt
+    "~".intercalate [showDest d, if r.2 then "1" else "0",
+      showNats (commitDiffOldest cg st dt fl.featureNoMerges),
+      showNats (commitDiffOldest cg wt dt fl.wNoMerges),
+      showNats r.1.reverse]
+  | _, _, _ => showDest d ++ "~missing"
+
+def handle (args : List String) : String :=
+  match args with
+  | ["reset", force, fnm, wnm, id, src, dst, uq, dests, refs, graph, prs] =>
+    match id.toNat?, parseDest dst, (dests.splitOn ",").mapM parseDest, parseRefs refs, parseGraph graph,
+          parsePrs prs with
+    | some i, some d, some ds, some rm, some cg, some hp =>
+      if !cg.wfb then "bad-op graph not topological" else
+      let fl : Flags := ⟨parseFlag fnm genFlags.featureNoMerges, parseFlag wnm genFlags.wNoMerges⟩
+      let s := mkSys cg rm ds (uq == "1") false
+      let pr : PrInfo := ⟨i, src, d⟩
+      let r := reset s cg fl hp pr (force == "1")
+      let remote' := applyOps r.plan.g noRej s.remote r.plan.ops
+      "|".intercalate [r.plan.outcome, showRefs remote', ",".intercalate (r.declined.map toString),
+        ";".intercalate ((wBranches s pr).map (branchDetail s cg fl pr))]
+    | _, _, _, _, _, _ => "bad-op reset fields"
+  | ["eval", id, src, dst, uq, sq, dests, refs, graph, stage, orc] =>
+    match id.toNat?, parseDest dst, (dests.splitOn ",").mapM parseDest, parseRefs refs, parseGraph graph,
+          parseStage stage with
+    | some i, some d, some ds, some rm, some cg, some st =>
+      if !cg.wfb then "bad-op graph not topological" else
+      let s := mkSys cg rm ds (uq == "1") (sq == "1")
+      let (s', out) := step s (.evalPr ⟨i, src, d⟩ st (parseBits orc) [])
+      observe s' out
+    | _, _, _, _, _, _ => "bad-op eval fields"
+  | _ => "bad-op"
+
 end BertE.Drv.C15
